@@ -2065,6 +2065,8 @@ class Recipe:
             raise TypeError("Total quantity must be a str.")
         if ('concentration' in kwargs) + ('total_quantity' in kwargs) + ('quantity' in kwargs) != 2:
             raise ValueError("Must specify two values out of concentration, quantity, and total quantity.")
+        if isinstance(solvent, Container) and solvent.name not in self.results:
+            raise ValueError(f"Solvent {solvent.name} has not been previously declared for use.")
 
         solute_names = ', '.join(substance.name for substance in solute) if isinstance(solute, Iterable) else solute.name
         if name is None:
